@@ -342,6 +342,13 @@ def lexlt(pe, d, i, k):
 	return SBool(z3.Or(z3.Select(d.arr, i) < z3.Select(d.arr, k), z3.And(z3.Select(d.arr, i) == z3.Select(d.arr, k), i < k)))
 
 
+def lexrank(pe, d, k):
+	"""position of reference k when the references are ordered by (distance, reference order)"""
+	from pyvc.libspec.np import LEXRANK
+	return SInt(LEXRANK(d.arr, d.length, int_term(k)))
+
+
+NS['lexrank'] = lexrank
 NS['is_ref'] = is_ref
 NS['is_idx'] = is_idx
 NS['lexlt'] = lexlt
@@ -363,11 +370,9 @@ def register_result_item(reg):
 			f'len({CG}) == min(params.report_closest, len({D}))',
 			# every entry is a reference genome with its exact distance and the taxon that distance alone assigns
 			f'forall(r, 0 <= r, r < len({CG}), exists(i, is_ref({CG}[r], {G}, {D}, i)))',
-			# order: non-decreasing distance, ties broken by reference order (hence deterministic)
-			f'forall((r, s), 0 <= r, r < s, s < len({CG}), exists((i, k), is_idx({CG}[r], {G}, {D}, i) and is_idx({CG}[s], {G}, {D}, k) and lexlt({D}, i, k)))',
-			# nothing closer is left out
-			f'forall(k, 0 <= k, k < len({D}), exists(r, 0 <= r and r < len({CG}) and is_idx({CG}[r], {G}, {D}, k))'
-			f' or (len({CG}) == params.report_closest and forall(r, 0 <= r, r < len({CG}), exists(i, is_idx({CG}[r], {G}, {D}, i) and lexlt({D}, i, k)))))',
+			# entry r is THE reference whose (distance, reference order) rank is r: non-decreasing distance, ties by reference
+			# order, nothing closer left out, and the same list on every run (the rank is a function of the distance row)
+			f'forall(r, 0 <= r, r < len({CG}), exists(i, lexrank({D}, i) == r and is_ref({CG}[r], {G}, {D}, i)))',
 			# its first entry is the genome reported as the closest match
 			f'implies(len({CG}) >= 1, {CG}[0].genome == result.classifier_result.closest_match.genome)',
 			'is_reportable(result.report_taxon, result.classifier_result.predicted_taxon)',
